@@ -76,7 +76,61 @@ struct St {
 	trace: Vec<String>,
 }
 
+#[derive(Clone, PartialEq)]
+struct Snap {
+	fillers: BTreeSet<u32>,
+	sharing: BTreeMap<u32, Vec<u64>>,
+}
+
 impl St {
+	fn snap(&self) -> Snap {
+		Snap { fillers: self.fillers.clone(), sharing: self.sharing.clone() }
+	}
+
+	/// Does the database show exactly the trees of `cand` (and none of the trees that only other
+	/// candidates have)? Used on crash images, where any prefix of the unsettled commits is legal.
+	fn matches(&mut self, db: &Db, rep: &mut Report, cand: &Snap, all: &[Snap], chosen: &[u64], settled: bool, at: &str) -> Result<(), Fail> {
+		let keep = self.snap();
+		self.fillers = cand.fillers.clone();
+		self.sharing = cand.sharing.clone();
+		let mut r = self.check(db, rep, at, chosen, settled);
+		if r.is_ok() {
+			// trees that exist in another candidate only must be absent
+			'outer: for o in all {
+				for i in o.sharing.keys() {
+					if !cand.sharing.contains_key(i) {
+						if let Ok(Some(_)) = db.get_root(0, &share_key(*i)) {
+							r = Err(("failure=non_prefix_state;phase=rc_growth".into(), format!("sharing tree {} is present although the matched prefix does not hold it ({})", i, at)));
+							break 'outer
+						}
+					}
+				}
+				for t in &o.fillers {
+					if !cand.fillers.contains(t) {
+						if let Ok(Some(_)) = db.get_root(0, &filler_key(*t)) {
+							r = Err(("failure=non_prefix_state;phase=rc_growth".into(), format!("filler tree {} is present although the matched prefix does not hold it ({})", t, at)));
+							break 'outer
+						}
+					}
+				}
+			}
+			for t in &cand.fillers {
+				if all.iter().any(|o| !o.fillers.contains(t)) {
+					match db.get_root(0, &filler_key(*t)) {
+						Ok(Some(_)) => {},
+						other => {
+							r = Err(("failure=non_prefix_state;phase=rc_growth".into(), format!("filler tree {} of the matched prefix reads back as {:?} ({})", t, other.map(|o| o.is_some()), at)));
+							break
+						},
+					}
+				}
+			}
+		}
+		self.fillers = keep.fillers;
+		self.sharing = keep.sharing;
+		r
+	}
+
 	/// number of live trees that reference the leaf
 	fn refs(&self, addr: u64) -> usize {
 		let (t, _, _) = self.leaf_of[&addr];
@@ -144,7 +198,66 @@ fn settle(db: &Db) -> Result<(), Fail> {
 	}
 	db.flush_logs().map_err(|e| step_err("flush_logs", e))?;
 	dbutil::do_step(db, Step::EnactAll).map_err(|e| step_err("enact_logs", e))?;
-	db.clean_logs().map_err(|e| step_err("clean_logs", e))?;
+	// every other time the enacted log files are NOT reclaimed yet (the cleanup worker lags): records
+	// that write to a ref-count table dropped meanwhile then precede later commits in the logs a
+	// crash leaves behind. Never more than three enacted files are kept (legality rule L1).
+	static CALLS: std::sync::atomic::AtomicU64 = std::sync::atomic::AtomicU64::new(0);
+	let n = CALLS.fetch_add(1, std::sync::atomic::Ordering::Relaxed);
+	if n % 2 == 0 || db.verif_status().dirty_logs >= 3 {
+		db.clean_logs().map_err(|e| step_err("clean_logs", e))?;
+	}
+	Ok(())
+}
+
+/// Crash probe, first half: the pipeline steps `steps` run with the crate's fault injector set
+/// to fail from the k-th file operation on; the directory as it is when the failure surfaces (or
+/// after the steps, when k lies behind them) is copied to `crash-img`. The handle is in an
+/// arbitrary state afterwards and must be leaked by the caller, who restores the directory from
+/// the backup taken here BEFORE the steps (`bak`) - for the main history the probe is a process
+/// crash before the steps, followed by a recovery.
+fn crash_image(db: &Db, base: &std::path::Path, k: usize, steps: &[Step]) -> Result<(std::path::PathBuf, bool), Fail> {
+	let img = base.join("crash-img");
+	let bak = base.join("bak");
+	let _ = std::fs::remove_dir_all(&img);
+	let _ = std::fs::remove_dir_all(&bak);
+	let src = base.join("db");
+	pv::scratch::copy_dir(&src, &bak).map_err(|e| ("failure=harness_io".to_string(), format!("backup copy: {}", e)))?;
+	// true once a flush_logs step returned Ok with no commit left in the queue: every commit made
+	// so far has its record synced, so the image must hold ALL of them (durability bound of C03)
+	let mut synced_all = false;
+	let r = catch(|| {
+		parity_db::set_number_of_allowed_io_operations(k);
+		for s in steps {
+			if dbutil::do_step(db, *s).is_err() {
+				break
+			}
+			if *s == Step::FlushLogs && db.verif_status().queued_commits == 0 {
+				synced_all = true;
+			}
+		}
+	});
+	parity_db::set_number_of_allowed_io_operations(usize::MAX);
+	if let Err(p) = r {
+		return Err((format!("failure=panic;phase=rc_growth;in=step_under_fault;site={}", panic_site(&p)), format!("a pipeline step panicked when file operation {} failed (steps {:?}): {}", k, steps.iter().map(|s| s.name()).collect::<Vec<_>>(), p)))
+	}
+	pv::scratch::copy_dir(&src, &img).map_err(|e| ("failure=harness_io".to_string(), format!("image copy: {}", e)))?;
+	let _ = std::fs::remove_file(img.join("lock"));
+	Ok((img, synced_all))
+}
+
+/// log, flush, enact - the enacted log files are kept (at most four, legality rule L1)
+fn settle_keep_logs(db: &Db) -> Result<(), Fail> {
+	for _ in 0..64 {
+		if db.verif_status().queued_commits == 0 {
+			break
+		}
+		db.process_commits().map_err(|e| step_err("process_commits", e))?;
+	}
+	db.flush_logs().map_err(|e| step_err("flush_logs", e))?;
+	dbutil::do_step(db, Step::EnactAll).map_err(|e| step_err("enact_logs", e))?;
+	if db.verif_status().dirty_logs >= 4 {
+		db.clean_logs().map_err(|e| step_err("clean_logs", e))?;
+	}
 	Ok(())
 }
 
@@ -243,6 +356,8 @@ pub fn run(ctx: &Ctx, rep: &mut Report, prop: &str, case_seed: u64, variant: u64
 		drop(per_chunk);
 		let n_files = |db: &Db| db.verif_status().columns[0].reindex_ref_count_bits.len();
 		let mut next_share = 0u32;
+		// states after each commit that is not known to be applied yet (first = last settled state)
+		let mut since: Vec<Snap> = vec![st.snap()];
 		macro_rules! share {
 			($db:expr, $leaves:expr) => {{
 				let i = next_share;
@@ -251,6 +366,7 @@ pub fn run(ctx: &Ctx, rep: &mut Report, prop: &str, case_seed: u64, variant: u64
 				let node = NewNode { data: root_data(10_000 + i), children: ch.iter().map(|a| NodeRef::Existing(*a)).collect() };
 				$db.commit_changes(vec![(0u8, Operation::InsertTree(share_key(i), node))]).map_err(|e| step_err("commit(sharing)", e))?;
 				st.sharing.insert(i, ch);
+				since.push(st.snap());
 				st.trace.push(format!("insert sharing tree {} ({} existing leaves)", i, st.sharing[&i].len()));
 				i
 			}};
@@ -259,6 +375,7 @@ pub fn run(ctx: &Ctx, rep: &mut Report, prop: &str, case_seed: u64, variant: u64
 			($db:expr, $i:expr) => {{
 				$db.commit_changes(vec![(0u8, Operation::DereferenceTree(share_key($i)))]).map_err(|e| step_err("commit(deref sharing)", e))?;
 				st.sharing.remove(&$i);
+				since.push(st.snap());
 				st.trace.push(format!("dereference sharing tree {}", $i));
 			}};
 		}
@@ -266,13 +383,21 @@ pub fn run(ctx: &Ctx, rep: &mut Report, prop: &str, case_seed: u64, variant: u64
 		{
 			let d = db.as_ref().unwrap();
 			share!(d, chosen[..20].to_vec());
-			settle(d)?;
+			{
+					settle(d)?;
+					since.clear();
+					since.push(st.snap());
+				}
 			st.check(d, rep, "chunk holds 20 counts", &chosen, true)?;
 			let mut second: Vec<u64> = chosen[20..32].to_vec();
 			second.extend_from_slice(&chosen[3..9]);
 			share!(d, second);
 			if rng.chance(1, 2) {
-				settle(d)?;
+				{
+					settle(d)?;
+					since.clear();
+					since.push(st.snap());
+				}
 			}
 			st.check(d, rep, "chunk holds 32 counts", &chosen, false)?;
 			if n_files(d) != 0 {
@@ -280,7 +405,11 @@ pub fn run(ctx: &Ctx, rep: &mut Report, prop: &str, case_seed: u64, variant: u64
 			}
 			// ---- the 33rd shared leaf: the table grows
 			share!(d, chosen[32..].to_vec());
-			settle(d)?;
+			{
+					settle(d)?;
+					since.clear();
+					since.push(st.snap());
+				}
 			st.check(d, rep, "after the overflowing insertion", &chosen, true)?;
 			if n_files(d) == 0 {
 				rep.count("rc_growth_not_triggered", 1);
@@ -297,7 +426,56 @@ pub fn run(ctx: &Ctx, rep: &mut Report, prop: &str, case_seed: u64, variant: u64
 		let mut reindex_done_at = None;
 		// the old table keeps waiting for the first `hold` rounds (no reindex batch is run)
 		let hold = rng.range(0, 6);
-		if rng.chance(1, 2) {
+		let script = rng.below(3);
+		if script == 2 {
+			// scripted "lingering log": counts that sit in the OLD table drop back to one (removal
+			// records that write to the old table), the old table is migrated and dropped - all of
+			// it enacted, none of the log files reclaimed yet - then one more commit is logged and
+			// synced and the process stops: replay meets records that write to a ref-count table
+			// which no longer exists, followed by a synced record that must not be lost
+			let d = db.as_ref().unwrap();
+			let twos: Vec<u64> = st.sharing.get(&0).cloned().unwrap_or_default().into_iter().filter(|a| st.refs(*a) == 2).collect();
+			if twos.len() >= 2 {
+				// (start from reclaimed logs so that the four-file limit is not reached below)
+				d.clean_logs().map_err(|e| step_err("clean_logs", e))?;
+				deref_share!(d, 0);
+				settle_keep_logs(d)?;
+				let mut guard = 0;
+				while n_files(d) > 0 && guard < 6 {
+					d.process_reindex().map_err(|e| step_err("process_reindex", e))?;
+					settle_keep_logs(d)?;
+					guard += 1;
+				}
+				st.trace.push(format!("old table migrated and dropped with {} enacted log file(s) not reclaimed", d.verif_status().dirty_logs));
+				if n_files(d) == 0 {
+					let alive: Vec<u64> = chosen.iter().copied().filter(|a| st.refs(*a) > 0).collect();
+					share!(d, alive[..alive.len().min(9)].to_vec());
+					for _ in 0..8 {
+						if d.verif_status().queued_commits == 0 {
+							break
+						}
+						d.process_commits().map_err(|e| step_err("process_commits", e))?;
+					}
+					d.flush_logs().map_err(|e| step_err("flush_logs", e))?;
+					let img = dir.path.join("img");
+					let _ = std::fs::remove_dir_all(&img);
+					pv::scratch::copy_dir(&dir.path.join("db"), &img).map_err(|e| ("failure=harness_io".to_string(), format!("copy: {}", e)))?;
+					let _ = std::fs::remove_file(img.join("lock"));
+					let mut o2 = opts.clone();
+					o2.path = img.clone();
+					let d2 = Db::open(&o2).map_err(|e| ("failure=open_error;phase=rc_growth;image=lingering_log".to_string(), format!("opening a crash image whose logs still hold writes to the dropped ref-count table: {}", e)))?;
+					st.check(&d2, rep, "crash image: old ref-count table dropped, its log not reclaimed, one more synced commit", &chosen, false).map_err(|(sg, dt)| (format!("{};image=lingering_log", sg.replace("tree_mismatch", "synced_commit_lost")), dt))?;
+					drop(d2);
+					let _ = std::fs::remove_dir_all(&img);
+					rep.count("rc_lingering_log_images", 1);
+				}
+				settle(d)?;
+				since.clear();
+				since.push(st.snap());
+				st.check(d, rep, "after the lingering-log script", &chosen, true)?;
+			}
+		}
+		if script == 1 {
 			// scripted: leaves whose count (2) sits in the OLD table gain a reference (the new count
 			// goes to the current table) and drop back to one, all before the old table is migrated
 			let d = db.as_ref().unwrap();
@@ -305,15 +483,27 @@ pub fn run(ctx: &Ctx, rep: &mut Report, prop: &str, case_seed: u64, variant: u64
 			if twos.len() >= 2 {
 				let y = share!(d, twos[..twos.len() / 2 + 1].to_vec());
 				if rng.chance(2, 3) {
+					{
 					settle(d)?;
+					since.clear();
+					since.push(st.snap());
+				}
 				}
 				st.check(d, rep, "count 2 -> 3 with the old table pending", &chosen, false)?;
 				deref_share!(d, y);
 				if rng.chance(2, 3) {
+					{
 					settle(d)?;
+					since.clear();
+					since.push(st.snap());
+				}
 				}
 				deref_share!(d, 0);
-				settle(d)?;
+				{
+					settle(d)?;
+					since.clear();
+					since.push(st.snap());
+				}
 				st.check(d, rep, "count 3 -> 2 -> 1 with the old table pending", &chosen, true)?;
 				rep.count("rc_up_and_down_while_old_table_pending", 1);
 			}
@@ -353,13 +543,18 @@ pub fn run(ctx: &Ctx, rep: &mut Report, prop: &str, case_seed: u64, variant: u64
 					if let Some(t) = owners.first().copied() {
 						d.commit_changes(vec![(0u8, Operation::DereferenceTree(filler_key(t)))]).map_err(|e| step_err("commit(deref filler)", e))?;
 						st.fillers.remove(&t);
+						since.push(st.snap());
 						st.trace.push(format!("dereference filler tree {}", t));
 						rep.count("rc_filler_owner_dereferenced", 1);
 					}
 				},
 				5 => {
 					// clean restart in the middle
+					{
 					settle(d)?;
+					since.clear();
+					since.push(st.snap());
+				}
 					dbutil::make_drop_legal(d).map_err(|e| step_err("pre-drop", e))?;
 					drop(db.take());
 					db = Some(Db::open(&opts).map_err(|e| ("failure=open_error;phase=rc_growth".to_string(), format!("reopen in round {}: {}", round, e)))?);
@@ -396,8 +591,119 @@ pub fn run(ctx: &Ctx, rep: &mut Report, prop: &str, case_seed: u64, variant: u64
 				},
 			}
 			let d = db.as_ref().unwrap();
+			if rng.chance(1, 2) {
+				// ---- crash probe: a forked copy of this process runs the next pipeline steps and is
+				// stopped by an I/O failure at its k-th file operation (inside the logging of a
+				// count change, the enactment of ref-count chunks, the migration of the old table,
+				// the creation / drop of a ref-count file); the directory as it is at that moment
+				// must recover to SOME prefix of the commits not known to be applied, and after the
+				// recovered pipeline drained a leaf no tree of that prefix references must be gone
+				let with_reindex = round >= hold && rng.chance(1, 2);
+				let mut steps = vec![];
+				if with_reindex {
+					steps.push(Step::ProcessReindex);
+				}
+				steps.extend_from_slice(&[Step::ProcessCommits, Step::ProcessCommits, Step::ProcessCommits, Step::FlushLogs, Step::EnactAll]);
+				if with_reindex {
+					steps.extend_from_slice(&[Step::ProcessReindex, Step::FlushLogs, Step::EnactAll]);
+				}
+				steps.push(Step::CleanLogs);
+				let k = if rng.chance(1, 3) { rng.range(0, 12) } else { rng.range(0, 90) } as usize;
+				let (img, synced_all) = crash_image(d, &dir.path, k, &steps)?;
+				// the handle that ran into the failure is leaked; the directory goes back to what it
+				// was before the steps and is recovered: a process crash of the main history
+				std::mem::forget(db.take());
+				std::fs::remove_dir_all(dir.path.join("db")).map_err(|e| ("failure=harness_io".to_string(), format!("restore: {}", e)))?;
+				std::fs::rename(dir.path.join("bak"), dir.path.join("db")).map_err(|e| ("failure=harness_io".to_string(), format!("restore: {}", e)))?;
+				let _ = std::fs::remove_file(dir.path.join("db").join("lock"));
+				db = Some(match catch(|| Db::open(&opts)) {
+					Ok(Ok(x)) => x,
+					Ok(Err(e)) => return Err(("failure=open_error;phase=rc_growth;image=process_crash".to_string(), format!("recovery after a process crash between two steps: {}", e))),
+					Err(p) => return Err((format!("failure=open_panic;phase=rc_growth;site={}", panic_site(&p)), format!("recovery after a process crash between two steps panicked: {}", p))),
+				});
+				{
+					let d = db.as_ref().unwrap();
+					let cands: Vec<Snap> = since.clone();
+					let mut matched = None;
+					let mut last_err = None;
+					for c in cands.iter().rev() {
+						match st.matches(d, rep, c, &cands, &chosen, false, "recovered main history") {
+							Ok(()) => {
+								matched = Some(c.clone());
+								break
+							},
+							Err(e) => last_err = Some(e),
+						}
+					}
+					match matched {
+						Some(m) => {
+							st.fillers = m.fillers.clone();
+							st.sharing = m.sharing.clone();
+							st.trace.push(format!("process crash + recovery ({} of {} unapplied commits survived)", cands.iter().position(|c| *c == m).unwrap_or(0), cands.len() - 1));
+						},
+						None => {
+							let (sig, det) = last_err.unwrap();
+							let sig = if sig.contains("non_prefix_state") { sig } else { format!("failure=non_prefix_state;phase=rc_growth;why={}", sig.split(';').next().unwrap_or("").trim_start_matches("failure=")) };
+							return Err((sig, format!("process crash between two steps with {} commit(s) not known to be applied: the recovered database matches none of the prefixes; last mismatch: {}", cands.len() - 1, det)))
+						},
+					}
+				}
+				let cands_for_image: Vec<Snap> = since.clone();
+				since.clear();
+				since.push(st.snap());
+				let mut o2 = opts.clone();
+				o2.path = img.clone();
+				let d2 = match catch(|| Db::open(&o2)) {
+					Ok(Ok(x)) => x,
+					Ok(Err(e)) => return Err(("failure=open_error;phase=rc_growth;image=crash".to_string(), format!("opening the image of a crash at file operation {} of {:?}: {}", k, steps.iter().map(|s| s.name()).collect::<Vec<_>>(), e))),
+					Err(p) => return Err((format!("failure=open_panic;phase=rc_growth;site={}", panic_site(&p)), format!("opening the image of a crash at file operation {} panicked: {}", k, p))),
+				};
+				let cands: Vec<Snap> = cands_for_image;
+				let mut matched = None;
+				let mut last_err = None;
+				if synced_all {
+					rep.count("rc_crash_probes_after_sync", 1);
+				}
+				for c in cands.iter().rev().take(if synced_all { 1 } else { usize::MAX }) {
+					match st.matches(&d2, rep, c, &cands, &chosen, false, "crash image") {
+						Ok(()) => {
+							matched = Some(c.clone());
+							break
+						},
+						Err(e) => last_err = Some(e),
+					}
+				}
+				let m = match matched {
+					Some(m) => m,
+					None => {
+						let (sig, det) = last_err.unwrap();
+						let sig = if sig.contains("non_prefix_state") { sig } else { format!("failure=non_prefix_state;phase=rc_growth;why={}", sig.split(';').next().unwrap_or("").trim_start_matches("failure=")) };
+						std::mem::forget(d2);
+						let sig = if synced_all { format!("{};synced=all", sig.replace("non_prefix_state", "synced_commit_lost")) } else { sig };
+						return Err((sig, format!("crash at file operation {} of {:?} with {} commit(s) not known to be applied{}: the recovered database matches none of the {} admissible prefixes; last mismatch: {}", k, steps.iter().map(|s| s.name()).collect::<Vec<_>>(), cands.len() - 1, if synced_all { " (all of them logged and synced before the failure)" } else { "" }, if synced_all { 1 } else { cands.len() }, det)))
+					},
+				};
+				// the recovered database keeps working: drain, then unreferenced leaves are gone
+				dbutil::drain(&d2).map_err(|e| step_err("drain(recovered image)", e))?;
+				st.matches(&d2, rep, &m, &cands, &chosen, true, "crash image, drained").map_err(|(s, d)| (format!("{};image=crash", s), format!("after recovery from a crash at file operation {} and a drain: {}", k, d)))?;
+				dbutil::make_drop_legal(&d2).map_err(|e| step_err("pre-drop(image)", e))?;
+				drop(d2);
+				let _ = std::fs::remove_dir_all(&img);
+				rep.count("rc_crash_probes", 1);
+				if pending {
+					rep.count("rc_crash_probes_with_old_table_pending", 1);
+				}
+				if cands.len() > 1 {
+					rep.count("rc_crash_probes_with_unapplied_commits", 1);
+				}
+			}
+			let d = db.as_ref().unwrap();
 			if rng.chance(2, 3) {
-				settle(d)?;
+				{
+					settle(d)?;
+					since.clear();
+					since.push(st.snap());
+				}
 			}
 			if round >= hold && rng.chance(1, 2) {
 				d.process_reindex().map_err(|e| step_err("process_reindex", e))?;
@@ -435,7 +741,11 @@ pub fn run(ctx: &Ctx, rep: &mut Report, prop: &str, case_seed: u64, variant: u64
 			if sharing_first {
 				for i in &shares {
 					deref_share!(d, *i);
+					{
 					settle(d)?;
+					since.clear();
+					since.push(st.snap());
+				}
 				}
 				st.check(d, rep, "all sharing trees gone, fillers alive", &chosen, true)?;
 			}
